@@ -2,6 +2,8 @@
 # tools/try_seed.sh <seed-dir> <CHECK...>: apply <seed-dir>/patch.diff to /repo, run the listed checks (quick),
 # print verdicts, and ALWAYS revert with `git apply -R` (never `checkout -- .`: /repo may hold uncommitted hooks).
 set -u
+# /repo's working tree is shared with other runs: hold the tree lock for the whole apply-run-revert
+if [ -z "${TRY_SEED_LOCKED:-}" ]; then exec env TRY_SEED_LOCKED=1 flock /tmp/repo-tree.lock "$0" "$@"; fi
 seed="$1"; shift
 cd /verif || exit 2
 if ! git -C /repo apply --check "$seed/patch.diff" 2>/tmp/try_seed.err; then echo "PATCH DOES NOT APPLY to /repo HEAD:"; cat /tmp/try_seed.err; exit 3; fi
